@@ -167,9 +167,23 @@ def hdrFindings (claimPrefix : String) (d : Desc) (n : Net) : List Finding :=
             s!"the destination field of the flit header is declared as {t}, the routers read it as {want}"]
   | none => [fnd (claimPrefix ++ "-header-field") "hdr_t" "no header type declared"]
 
+/-- `Hw.allowed` is the router with its default switches: no loop-back, and under XY no turn from North/South to
+    East/West (`NoLoopback`, `XYRouteOpt`; defaults pinned by `HwTie.rtl_shape`).  A router instance that sets one of
+    them to something else is not the hardware the walks below execute -/
+def routerSwitchFindings (claimPrefix : String) (n : Net) : List Finding :=
+  (Hw.routers n).flatMap fun r =>
+    r.params.filterMap fun (p, e) =>
+      if p == "XYRouteOpt" || p == "NoLoopback" then
+        match e with
+        | .lit 1 'b' "1" => none
+        | .num 1 => none
+        | _ => some (fnd (claimPrefix ++ "-router-switch") r.name
+                 s!"parameter {p} of the router is not left at its default 1'b1: the loop-back / Y-to-X restriction the route execution relies on is switched off")
+      else none
+
 namespace C02
 def check (d : Desc) (n : Net) : List Finding :=
-  if d.algo == .ID then deliveryFindings "id" d n ++ hdrFindings "id" d n else []
+  if d.algo == .ID then deliveryFindings "id" d n ++ hdrFindings "id" d n ++ routerSwitchFindings "id" n else []
 end C02
 
 namespace C03
@@ -186,7 +200,7 @@ def litFindings (n : Net) : List Finding :=
   | none, _ => [fnd "src-no-table" "RoutingTables" "no RoutingTables emitted"]
 
 def check (d : Desc) (n : Net) : List Finding :=
-  if d.algo == .SRC then deliveryFindings "src" d n ++ litFindings n ++ hdrFindings "src" d n else []
+  if d.algo == .SRC then deliveryFindings "src" d n ++ litFindings n ++ hdrFindings "src" d n ++ routerSwitchFindings "src" n else []
 end C03
 
 /-! ## C05 -/
